@@ -88,8 +88,33 @@ class AsmPasses:
                 raise sym.PathAbort()
             env.ensure(KEY + "fix_addresses::post:rel-target", d.ok and (nxt + d.offset - tgt) % 65536 == 0, ("C03",),
                        lambda: "fix_addresses:rel:%s:%s:dist=%d" % (m, cell["dir"], dist))
+        elif "probe_n" in h:
+            # bounded probe: a concrete program around the PCR statement of this cell
+            nfill, direction = h["probe_n"], h["probe_dir"]
+            m, op = (cell.get("mnemonic") or "LDA"), (cell.get("operand") or "T,PCR")
+            src = " %s %s\n" % (m, op)
+            lines = [src, " RMB %d\n" % nfill, "T NOP\n"] if direction == "fwd" else ["T NOP\n", " RMB %d\n" % nfill, src]
+            si, ti = (0, 2) if direction == "fwd" else (2, 0)
+            run = assemble(env, lines, bytes_of=[si])
+            if run.status != "ok":
+                env.ensure(KEY + "probe:terminates-and-accepts", run.status == "diag", ("C13", "C03"),
+                           lambda: "probe:%s:%s:n=%d:%s" % (m, direction, nfill, run.status))
+                return
+            st = run.stmts[si]
+            d = mc6809.decode(st.bytes)
+            ok = d.ok and d.length == len(st.bytes) and d.kind in ("pcr8", "pcr16") and \
+                (st.address + len(st.bytes) + d.offset - run.stmts[ti].address) % 65536 == 0
+            env.ensure(KEY + "probe:pcr-target", ok, ("C03",), lambda: "probe:%s:%s:n=%d" % (m, direction, nfill))
         else:
             env.ensure(KEY + "native-replay-not-implemented", True, ())
+
+    def probes(self, cell):
+        if cell["k"] in ("pcr", "sizes"):
+            for direction in ("fwd", "bwd"):
+                for nfill in (0, 1, 50, 100, 118, 119, 120, 121, 122, 123, 127, 128, 129, 130, 131, 132, 200, 300, 40000):
+                    if direction == "bwd" and 120 <= nfill <= 127:
+                        continue      # the known backward boundary finding (asm_layout) is not re-litigated here
+                    yield {"probe_n": nfill, "probe_dir": direction}
 
     # ------------------------------------------------------------------ helpers
     def _statement(self, env, line, table):
@@ -233,8 +258,8 @@ class AsmPasses:
         txt = it.call(it.getattr_(add, "hex"), [], {})
         val = sym.parse_int(txt, 16)
         w = 256 if hint == 2 else 65536
-        env.ensure(key + "::post:pcr-field-width", len(txt) == hint, ("C03", "C02"))
-        env.ensure(key + "::post:pcr-target", (val - jump) % w == 0, ("C03",))
+        env.ensure(key + "::post:pcr-field-width", len(txt) == hint, ("C03", "C02"), internal="contract over an abstract statement list")
+        env.ensure(key + "::post:pcr-target", (val - jump) % w == 0, ("C03",), internal="contract over an abstract statement list")
 
     # ------------------------------------------------------------------ determine_pcr_relative_sizes
     def s_sizes(self, env, cell):
@@ -306,7 +331,7 @@ class AsmPasses:
                 env.fail(key + "::raises:none", ("C13",))
                 return
         fixed = it.truth_sym(it.getattr_(stmt, "fixed_size"))
-        env.ensure(key + "::post:progress", fixed, ("C13", "C03"))
+        env.ensure(key + "::post:progress", fixed, ("C13", "C03"), internal="contract over an abstract statement list")
         pkg = it.getattr_(stmt, "code_pkg")
         size1 = it.getattr_(pkg, "size")
         hint = it.getattr_(stmt, "pcr_size_hint")
